@@ -298,6 +298,27 @@ def dense_cases(rng, n):
     return cases
 
 
+def equispaced_cases(rng, n):
+    """family `equispaced` (mutation audit 2026-09-22): tensors whose deviator has J3 = 0 (eigenvalues t+x, t, t-x) with
+    a non zero trace — the `d = 1` shortcut of the Harari solver and the phi = pi/6 case of the Cardano based ones.
+    Diagonal (exactly symmetric floating point sums) and rotated by an exact rational rotation."""
+    cases = []
+    for k in range(n):
+        t = rng.choice([-1, 1]) * rng.uniform(0.3, 3)
+        x = rng.uniform(0.1, 3)
+        perm = rng.choice([(t + x, t, t - x), (t, t + x, t - x), (t - x, t + x, t)])
+        cases.append(("equispaced#q%d" % k, 3, list(perm) + [0., 0., 0.]))
+    for k in range(n // 2):
+        t = rng.choice([-1, 1]) * rng.uniform(0.3, 3)
+        x = rng.uniform(0.1, 3)
+        Rm = R.rnd_orth(rng)
+        Rf = [[float(v) for v in row] for row in Rm.a]
+        l = [t + x, t, t - x]
+        A = [[sum(Rf[i][j_] * l[j_] * Rf[j][j_] for j_ in range(3)) for j in range(3)] for i in range(3)]
+        cases.append(("equispaced#r%d" % k, 3, [A[0][0], A[1][1], A[2][2], A[0][1], A[0][2], A[1][2]]))
+    return cases
+
+
 # accuracy reached by every solver on the `dense` family (relative residuals): clean maximum 3.8e-14 over 40 seeds => bound 5e-12
 ACCURACY_DENSE = 5e-12
 
@@ -364,7 +385,7 @@ def run(ck):
                 continue
             fam = f[0].split(":")[-1]
             directed.append(("%s#d%d" % (fam, len(directed)), int(f[1]), [float(x) for x in f[2:8]]))
-    cases = directed + families(rng, 6 if ck.quick else 120) + dense_cases(rng, 12 if ck.quick else 200)
+    cases = directed + families(rng, 6 if ck.quick else 120) + dense_cases(rng, 12 if ck.quick else 200) + equispaced_cases(rng, 8 if ck.quick else 100)
     rows, err = residuals(ck, bins["c03resid"], cases)
     report = {}
     keys_fired = []
